@@ -244,3 +244,31 @@ def show(t, depth=0):
     if h == "bot":
         return "⊥"
     return "%s(%s)" % (h, ", ".join(show(a, d) if isinstance(a, tuple) else str(a) for a in t[1:]))
+
+
+def renumber_loops(t):
+    """loop identifiers (`ivar`, `lv`, `accum`, `pick`, `havoc`) renumbered by first appearance, so that two evaluations that met the
+    same loops in a different order produce comparable terms"""
+    m = {}
+
+    def lid(n):
+        if n not in m:
+            m[n] = len(m) + 1
+        return m[n]
+
+    def go(x):
+        if not isinstance(x, tuple) or not x:
+            return x
+        h = x[0]
+        if h == "ivar" and len(x) == 2 and isinstance(x[1], int):
+            return ("ivar", lid(x[1]))
+        if h == "lv" and len(x) == 3 and isinstance(x[1], int):
+            return ("lv", lid(x[1]), x[2])
+        if h == "accum" and len(x) == 4 and isinstance(x[3], int):
+            return ("accum", go(x[1]), go(x[2]), lid(x[3]))
+        if h == "pick" and len(x) >= 4 and isinstance(x[3], int):
+            return ("pick", go(x[1]), go(x[2]), lid(x[3])) + tuple(go(y) for y in x[4:])
+        if h == "havoc" and len(x) == 3 and isinstance(x[1], int):
+            return ("havoc", lid(x[1]), x[2])
+        return tuple(go(y) if isinstance(y, tuple) else y for y in x)
+    return go(t)
